@@ -144,12 +144,15 @@ def gen_llas(rng, kind=None):
     if kind == "short":
         k = int(rng.integers(2, 4))
         return rng.uniform(-3, 3) + rng.uniform(0.1, 1.5) * np.arange(k)
+    # lambdas stay inside 10**[-6, 8], the range for which the core solver is certified (C01)
     k = int(rng.integers(3, 41))
     step = float(rng.choice([0.1, 0.2, 0.25, 0.5, 1.0, rng.uniform(0.05, 1.0)]))
+    step = min(step, 12.0 / (k - 1))
     start = float(rng.uniform(-4, 3))
     hi = start + step * (k - 1)
     if hi > 6.5:
         start -= hi - 6.5
+    start = max(start, -6.0)
     return start + step * np.arange(k)
 
 
